@@ -375,6 +375,22 @@ func drawStream(t *rapid.T, wname string, targets []string) streamCase {
 				specs = append(specs, pick(t, p, p.byBin[j][bins[k]], "bin"))
 			}
 		}
+	case "mixed": // item i fails only the uniformity criterion, a later item j > i fails only the pass count: which one is named?
+		i := rapid.IntRange(0, w.Items-2).Draw(t, "item_uniformity")
+		j := rapid.IntRange(i+1, w.Items-1).Draw(t, "item_passcount")
+		for k := 0; k < allowed+1; k++ {
+			specs = append(specs, pick(t, p, p.failing[j], "failj"))
+		}
+		// the remaining samples all come from two Q-bins of item i: a hopelessly lopsided histogram
+		b1 := rapid.IntRange(0, 9).Draw(t, "bin1")
+		b2 := rapid.IntRange(0, 9).Draw(t, "bin2")
+		for len(specs) < w.S {
+			b := b1
+			if len(specs)%2 == 0 {
+				b = b2
+			}
+			specs = append(specs, pick(t, p, p.byBin[i][b], "lop"))
+		}
 	case "one-bad": // all-pass samples plus exactly `allowed` stuck-at samples: passes, unless sample contents get mixed up
 		for i := 0; i < allowed; i++ {
 			specs = append(specs, sampleSpec{Kind: "const", Seed: rapid.SampledFrom([]uint64{0x00, 0xff, 0x55}).Draw(t, "stuck")})
